@@ -4,7 +4,7 @@ from __future__ import annotations
 import ast
 
 from ..core import Ctx
-from ..match import arg, call_name, calls, facts_at, local_defs, mentions, resolve, single_def, stores
+from ..match import Fact, _atoms_with_polarity, arg, call_name, calls, facts_at, local_defs, mentions, resolve, single_def, stores
 from ..model import AnalysisError, FuncInfo, ancestors, chain, const_value, enclosing_stmt, norm, parent, strip_cast, walk_no_nested
 
 LEVEL = "other"
@@ -20,6 +20,104 @@ EXPLANATION = (
 )
 
 RT = "ipv8/dht/routing.py"
+
+_COMPS = (ast.ListComp, ast.SetComp, ast.GeneratorExp)
+
+
+# ----------------------------------------------------------------------------------- helpers
+def _copy(e):
+    """Copy of the syntax fields only.  (copy.deepcopy would follow the engine's `_parent` back-links and copy the whole
+    module, deep enough to exhaust the recursion limit.)"""
+    if isinstance(e, ast.AST):
+        new = e.__class__()
+        for f, v in ast.iter_fields(e):
+            setattr(new, f, _copy(v))
+        return new
+    if isinstance(e, list):
+        return [_copy(x) for x in e]
+    return e
+
+
+def _expand(fi: FuncInfo, e: ast.AST, stop=(), depth: int = 6) -> ast.AST:
+    """Copy of e with single-assignment locals (not in `stop`) replaced by their defining expression."""
+    class T(ast.NodeTransformer):
+        def visit_Name(self, n):
+            if depth > 0 and isinstance(n.ctx, ast.Load) and n.id not in stop:
+                d = single_def(fi, n.id)
+                if d is not None and d[1] is None:
+                    return _expand(fi, strip_cast(d[0]), stop, depth - 1)
+            return n
+    return T().visit(_copy(e))
+
+
+def _xnorm(fi: FuncInfo, e: ast.AST, stop=()) -> str:
+    return norm(_expand(fi, e, stop))
+
+
+def _names_shape(e: ast.AST):
+    """Name structure of a (possibly nested tuple) binding target / identity element, None if anything else."""
+    if isinstance(e, ast.Name):
+        return e.id
+    if isinstance(e, (ast.Tuple, ast.List)):
+        parts = [_names_shape(x) for x in e.elts]
+        return None if any(p is None for p in parts) else tuple(parts)
+    return None
+
+
+def _strip_snapshot(e: ast.AST) -> ast.AST:
+    """list(x) / tuple(x) of one positional argument keep the elements and their order."""
+    while isinstance(e, ast.Call) and isinstance(e.func, ast.Name) and e.func.id in ("list", "tuple") and len(e.args) == 1 and not e.keywords \
+            and not isinstance(e.args[0], ast.Starred):
+        e = e.args[0]
+    return e
+
+
+def _comp_filter_facts(comp: ast.AST, names: set[str]) -> list[Fact]:
+    """Facts that hold for every element produced by a comprehension: the atoms of its `if` clauses, taken from the
+    generator that binds (one of) `names` onwards - an earlier clause would speak about an outer variable of that name."""
+    out: list[Fact] = []
+    bound = False
+    for g in comp.generators:
+        if g.is_async:
+            return []
+        if names & {n.id for n in ast.walk(g.target) if isinstance(n, ast.Name)}:
+            bound = True
+        if bound:
+            for i in g.ifs:
+                out.extend(_atoms_with_polarity(i, True))
+    return out
+
+
+def _loop_filter_facts(fi: FuncInfo, site: ast.AST) -> list[Fact]:
+    """`for T in [T for T in src if C]` (the list possibly held in a single-assignment local): C holds for T in the body.
+    Only identity comprehensions whose element has the same name structure as the loop target are used."""
+    out: list[Fact] = []
+    for a in ancestors(site):
+        if a is fi.node:
+            break
+        if not isinstance(a, ast.For):
+            continue
+        it = _strip_snapshot(resolve(fi, _strip_snapshot(a.iter)))
+        if not isinstance(it, _COMPS):
+            continue
+        shape = _names_shape(a.target)
+        if shape is None or _names_shape(it.elt) != shape:
+            continue
+        names = {n.id for n in ast.walk(a.target) if isinstance(n, ast.Name)}
+        # the element is the generator's own target (identity), so the filter speaks about the loop variable
+        if not any(_names_shape(g.target) == shape for g in it.generators):
+            continue
+        out.extend(_comp_filter_facts(it, names))
+    return out
+
+
+def _status_cmp(f: Fact, var: str) -> bool:
+    """f compares <var>.status with NODE_STATUS_BAD (either side)."""
+    return f.op == "eq" and {norm(f.left), norm(f.right)} == {f"{var}.status", "NODE_STATUS_BAD"}
+
+
+def _writes_status(fi: FuncInfo) -> bool:
+    return any(isinstance(n, ast.Attribute) and n.attr == "status" and isinstance(n.ctx, (ast.Store, ast.Del)) for n in ast.walk(fi.node))
 
 
 def rule_bucket(ctx: Ctx) -> None:
@@ -127,9 +225,89 @@ def rule_split(ctx: Ctx) -> None:
     rb = repo.method("RoutingTable", "remove_bad_nodes", RT)
     cfgr = ctx.cfg(rb)
     for c in [c for c in calls(rb) if call_name(c) == "pop"]:
-        fs = facts_at(cfgr, c)
-        ok = any(f.op == "eq" and f.pos and norm(f.left) == "node.status" and norm(f.right) == "NODE_STATUS_BAD" for f in fs)
-        ctx.check(ok, "bucket-insert", rb, c, "only BAD nodes are removed", "remove_bad_nodes removes nodes that are not BAD")
+        # guard in the loop body, or the loop runs over a list that was filtered by the guard (collect first, pop afterwards:
+        # same nodes, same order; the status is not written in between)
+        fs = facts_at(cfgr, c) + ([] if _writes_status(rb) else _loop_filter_facts(rb, c))
+        ok = any(f.pos and _status_cmp(f, "node") for f in fs)
+        ctx.check(ok, "bucket-insert", rb, c, "only BAD nodes are removed", "remove_bad_nodes removes nodes that are not BAD", [str(f) for f in fs])
+
+
+def _live_collection(e: ast.AST) -> bool:
+    """A comprehension (possibly wrapped in set()/list()/frozenset()) whose elements are its own loop variable filtered by
+    <var>.status != NODE_STATUS_BAD."""
+    while isinstance(e, ast.Call) and isinstance(e.func, ast.Name) and e.func.id in ("set", "frozenset", "list", "tuple") and len(e.args) == 1 \
+            and not e.keywords and not isinstance(e.args[0], ast.Starred):
+        e = e.args[0]
+    if not isinstance(e, _COMPS) or not isinstance(e.elt, ast.Name):
+        return False
+    var = e.elt.id
+    if not any(var in {n.id for n in ast.walk(g.target) if isinstance(n, ast.Name)} for g in e.generators):
+        return False
+    return any(_status_cmp(f, var) and not f.pos for f in _comp_filter_facts(e, {var}))
+
+
+def _empty_set(e: ast.AST) -> bool:
+    return isinstance(e, ast.Call) and isinstance(e.func, ast.Name) and e.func.id == "set" and not e.keywords and \
+        (not e.args or (len(e.args) == 1 and isinstance(e.args[0], (ast.List, ast.Tuple)) and not e.args[0].elts))
+
+
+def _additions(fi: FuncInfo, cfg, coll: str) -> list[tuple[ast.AST, bool]]:
+    """Every statement / call that can put elements into the local collection `coll`, with 'only live nodes' decided."""
+    out: list[tuple[ast.AST, bool]] = []
+
+    def union_ok(v: ast.AST) -> bool:
+        if isinstance(v, ast.Name) and v.id == coll:
+            return True
+        if isinstance(v, ast.BinOp) and isinstance(v.op, ast.BitOr):
+            return union_ok(v.left) and union_ok(v.right)
+        return _live_collection(resolve(fi, v))
+
+    for st, _val, _idx in local_defs(fi, coll):
+        if not isinstance(st, (ast.Assign, ast.AnnAssign, ast.AugAssign)):
+            out.append((st, False))                                       # bound by for / with / walrus / except: not followed
+    for n in walk_no_nested(fi.node):
+        if isinstance(n, ast.AugAssign) and isinstance(n.target, ast.Name) and n.target.id == coll:
+            if isinstance(n.op, (ast.BitAnd, ast.Sub)):
+                continue                                                  # can only shrink
+            out.append((n, isinstance(n.op, ast.BitOr) and union_ok(n.value)))
+        elif isinstance(n, (ast.Assign, ast.AnnAssign)) and n.value is not None:
+            tg = n.targets if isinstance(n, ast.Assign) else [n.target]
+            if any(isinstance(t, ast.Name) and t.id == coll for t in tg):
+                if _empty_set(n.value):
+                    continue
+                out.append((n, union_ok(n.value)))
+            elif any(coll in {x.id for x in ast.walk(t) if isinstance(x, ast.Name) and isinstance(x.ctx, ast.Store)} for t in tg):
+                out.append((n, False))                                    # bound through unpacking: not followed
+        elif isinstance(n, ast.Call) and isinstance(n.func, ast.Attribute) and isinstance(n.func.value, ast.Name) and n.func.value.id == coll:
+            if n.func.attr == "add" and len(n.args) == 1:
+                x = n.args[0]
+                fs = facts_at(cfg, n) + ([] if _writes_status(fi) else _loop_filter_facts(fi, n))
+                out.append((n, isinstance(x, ast.Name) and any(_status_cmp(f, x.id) and not f.pos for f in fs)))
+            elif n.func.attr in ("update", "extend", "append", "insert", "symmetric_difference_update", "__ior__"):
+                out.append((n, n.func.attr == "update" and not n.keywords and all(_live_collection(resolve(fi, a)) for a in n.args)))
+    return out
+
+
+def _descending_from_len(fi: FuncInfo, it: ast.AST, name: str) -> bool:
+    """The iterable yields len(name), len(name)-1, ..., 0."""
+    it = _expand(fi, it, stop=(name,))
+    length = f"len({name})"
+    if not isinstance(it, ast.Call) or it.keywords:
+        return False
+    if chain(it.func) == "reversed" and len(it.args) == 1:
+        r = it.args[0]
+        if not (isinstance(r, ast.Call) and chain(r.func) == "range" and not r.keywords and 1 <= len(r.args) <= 3):
+            return False
+        a = r.args
+        if len(a) >= 2 and const_value(a[0]) != 0:
+            return False
+        if len(a) == 3 and const_value(a[2]) != 1:
+            return False
+        stop = a[0] if len(a) == 1 else a[1]
+        return norm(stop) in (f"{length} + 1", f"1 + {length}")
+    if chain(it.func) == "range" and len(it.args) == 3:
+        return norm(it.args[0]) == length and const_value(it.args[1]) == -1 and const_value(it.args[2]) == -1
+    return False
 
 
 def rule_closest(ctx: Ctx) -> None:
@@ -139,40 +317,58 @@ def rule_closest(ctx: Ctx) -> None:
     target, k = fi.params()[1], fi.params()[2]
     rets = [r for r in walk_no_nested(fi.node) if isinstance(r, ast.Return)]
     ok = False
-    if len(rets) == 1 and isinstance(rets[0].value, ast.Subscript) and isinstance(rets[0].value.slice, ast.Slice):
-        sl = rets[0].value
-        srt = sl.value
-        if sl.slice.lower is None and norm(sl.slice.upper) == k and isinstance(srt, ast.Call) and chain(srt.func) == "sorted" and not arg(srt, None, "reverse"):
-            key = arg(srt, None, "key")
-            if isinstance(key, ast.Lambda):
-                body = key.body
-                first = body.elts[0] if isinstance(body, ast.Tuple) else body
-                ok = norm(first) in (f"distance({key.args.args[0].arg}.id, {target})", f"distance({target}, {key.args.args[0].arg}.id)")
+    coll = None
+    if len(rets) == 1:
+        sl = resolve(fi, rets[0].value)                                   # `v = sorted(..)[:k]; return v` is the same value
+        if isinstance(sl, ast.Subscript) and isinstance(sl.slice, ast.Slice):
+            srt = resolve(fi, sl.value)
+            if sl.slice.lower is None and sl.slice.step is None and sl.slice.upper is not None and norm(sl.slice.upper) == k \
+                    and isinstance(srt, ast.Call) and chain(srt.func) == "sorted" and not arg(srt, None, "reverse"):
+                key = arg(srt, None, "key")
+                if isinstance(key, ast.Lambda):
+                    body = key.body
+                    first = body.elts[0] if isinstance(body, ast.Tuple) else body
+                    ok = norm(first) in (f"distance({key.args.args[0].arg}.id, {target})", f"distance({target}, {key.args.args[0].arg}.id)")
+                if ok and srt.args and isinstance(srt.args[0], ast.Name):
+                    coll = srt.args[0].id
     ctx.check(ok, "closest", fi, rets[0] if rets else fi.node, "result = sorted(nodes, key=XOR distance to the target first)[:max_nodes]",
               "closest_nodes does not return the max_nodes nearest by XOR distance to the target, nearest first")
     dist = repo.func(RT, "distance")
     r = [x for x in walk_no_nested(dist.node) if isinstance(x, ast.Return)]
     ok = len(r) == 1 and isinstance(r[0].value, ast.BinOp) and isinstance(r[0].value.op, ast.BitXor)
     ctx.check(ok, "closest", dist, dist.node, "distance is XOR of the ids as integers", "distance is no longer the XOR metric")
-    # candidate set: live nodes only
-    comps = [c for c in ast.walk(fi.node) if isinstance(c, ast.SetComp)]
-    ok = bool(comps) and any("node.status != NODE_STATUS_BAD" in norm(i) for c in comps for g in c.generators for i in g.ifs)
-    ctx.check(ok, "closest", fi, fi.node, "candidates exclude BAD nodes", "closest_nodes can return nodes whose status is BAD")
+    # candidate set: the collection that is counted by the walk and sorted at the end receives live nodes only
+    # (set comprehension with the filter, or an explicit loop that adds under the filter: same elements)
+    coll = coll or "nodes"
+    adds = _additions(fi, cfg, coll)
+    ok = bool(adds) and all(good for _, good in adds)
+    bad = next((n for n, good in adds if not good), None)
+    ctx.check(ok, "closest", fi, enclosing_stmt(bad) if bad is not None else fi.node, "candidates exclude BAD nodes",
+              "closest_nodes can return nodes whose status is BAD" + ("" if adds else f" (nothing is added to `{coll}`)"))
     # the walk: i from len(prefix) down to 0, all suffixes of prefix[:i]; break only with >= max_nodes collected
     loops = [l for l in walk_no_nested(fi.node) if isinstance(l, ast.For)]
-    outer = [l for l in loops if norm(l.iter) == "reversed(range(len(prefix) + 1))"]
-    ctx.check(len(outer) == 1, "closest", fi, fi.node, "walk from the longest prefix outwards to the root", "the subtree walk does not go from the longest prefix to the root")
-    if outer:
-        inner = [l for l in ast.walk(outer[0]) if isinstance(l, ast.For) and l is not outer[0]]
-        iv = norm(outer[0].target)
-        ok = len(inner) == 1 and norm(inner[0].iter) == f"self.trie.suffixes(prefix[:{iv}])" and \
-            any(norm(s.value) == f"self.trie[prefix[:{iv}] + {norm(inner[0].target)}]" for s in ast.walk(inner[0]) if isinstance(s, ast.Assign))
+    outer = [l for l in loops if isinstance(l.target, ast.Name) and _descending_from_len(fi, l.iter, "prefix")]
+    ctx.check(len(outer) == 1, "closest", fi, loops[0] if loops else fi.node, "walk from the longest prefix outwards to the root",
+              "the subtree walk does not go from the longest prefix to the root")
+    if len(outer) == 1:
+        iv = outer[0].target.id
+        stop = ("prefix", iv)
+        inner = [l for l in ast.walk(outer[0]) if isinstance(l, ast.For) and l is not outer[0]
+                 and _xnorm(fi, l.iter, stop) == f"self.trie.suffixes(prefix[:{iv}])"]
+        ok = len(inner) == 1 and isinstance(inner[0].target, ast.Name)
+        if ok:
+            want = f"self.trie[prefix[:{iv}] + {inner[0].target.id}]"
+            ok = any(isinstance(s, ast.Subscript) and isinstance(s.ctx, ast.Load) and _xnorm(fi, s, stop + (inner[0].target.id,)) == want
+                     for st in inner[0].body for s in ast.walk(st))
+            # the suffix loop runs on every level: it is not under a condition inside the level
+            ok = ok and not any(isinstance(a, (ast.If, ast.IfExp, ast.Try, ast.While)) for a in _between(inner[0], outer[0]))
         ctx.check(ok, "closest", fi, outer[0], "each level takes every bucket below prefix[:i]", "a level of the walk does not cover the whole subtree")
+        within = set(map(id, ast.walk(outer[0])))
         for b in [b for b in ast.walk(outer[0]) if isinstance(b, ast.Break)]:
             fs = facts_at(cfg, b)
-            ok = any(f.op == "lt" and ((f.pos and norm(f.left) == k and norm(f.right) == "len(nodes)") or
-                                       (not f.pos and norm(f.left) == "len(nodes)" and norm(f.right) == k)) for f in fs)
-            in_inner = any(isinstance(a, ast.For) and a is not outer[0] for a in ancestors(b) if a in list(ast.walk(outer[0])))
+            ok = any(f.op == "lt" and ((f.pos and norm(f.left) == k and norm(f.right) == f"len({coll})") or
+                                       (not f.pos and norm(f.left) == f"len({coll})" and norm(f.right) == k)) for f in fs)
+            in_inner = any(isinstance(a, (ast.For, ast.While)) and a is not outer[0] for a in ancestors(b) if id(a) in within)
             ctx.check(ok and not in_inner, "closest", fi, b, "the walk stops only after a complete level and with >= max_nodes candidates",
                       "the walk can stop with fewer than max_nodes candidates or in the middle of a subtree: the result is not the k closest", [str(f) for f in fs])
     d = single_def(fi, "prefix")
@@ -181,61 +377,175 @@ def rule_closest(ctx: Ctx) -> None:
     ctx.check(ok, "closest", fi, fi.node, "walk starts at the longest known prefix of the target", "the walk does not start at the target's own bucket")
 
 
+def _between(inner: ast.AST, outer: ast.AST) -> list[ast.AST]:
+    out = []
+    for a in ancestors(inner):
+        if a is outer:
+            break
+        out.append(a)
+    return out
+
+
+class _Unsupported(Exception):
+    pass
+
+
+def _subst(e: ast.AST, env: dict[str, ast.AST]) -> ast.AST:
+    class T(ast.NodeTransformer):
+        def visit_Name(self, n):
+            if isinstance(n.ctx, ast.Load) and n.id in env:
+                return _copy(env[n.id])
+            return n
+    return T().visit(_copy(e))
+
+
+def _sym_returns(fi: FuncInfo) -> list[tuple[ast.Return, tuple, ast.AST]]:
+    """Value of every `return` of a loop-free function as one expression over parameters / attributes: locals are
+    substituted in program order (so `x = a; if c: x += b` gives `a + b if c else a`), together with the branch
+    conditions (test, polarity) under which the return is reached.  Raises _Unsupported for anything else."""
+    rets: list[tuple[ast.Return, tuple, ast.AST]] = []
+
+    def run(stmts, env, conds):
+        for st in stmts:
+            if isinstance(st, ast.Pass) or (isinstance(st, ast.Expr) and isinstance(st.value, ast.Constant)):
+                continue
+            if isinstance(st, ast.Assign) and len(st.targets) == 1 and isinstance(st.targets[0], ast.Name):
+                env[st.targets[0].id] = _subst(strip_cast(st.value), env)
+            elif isinstance(st, ast.AnnAssign) and isinstance(st.target, ast.Name):
+                if st.value is not None:
+                    env[st.target.id] = _subst(strip_cast(st.value), env)
+            elif isinstance(st, ast.AugAssign) and isinstance(st.target, ast.Name) and st.target.id in env:
+                env[st.target.id] = ast.BinOp(left=env[st.target.id], op=st.op, right=_subst(st.value, env))
+            elif isinstance(st, ast.If):
+                t = _subst(st.test, env)
+                e1 = run(st.body, dict(env), conds + ((t, True),))
+                e2 = run(st.orelse, dict(env), conds + ((t, False),))
+                if e1 is None and e2 is None:
+                    return None
+                if e1 is None or e2 is None:
+                    env, conds = (e2, conds + ((t, False),)) if e1 is None else (e1, conds + ((t, True),))
+                    continue
+                merged = {}
+                for name in e1.keys() & e2.keys():
+                    a, b = e1[name], e2[name]
+                    merged[name] = a if ast.dump(a) == ast.dump(b) else ast.IfExp(test=t, body=a, orelse=b)
+                for name in (e1.keys() ^ e2.keys()) | (env.keys() - merged.keys()):
+                    merged.pop(name, None)
+                    merged[name] = ast.Name(id=f"<unbound:{name}>", ctx=ast.Load())
+                env = merged
+            elif isinstance(st, ast.Return):
+                if st.value is None:
+                    raise _Unsupported
+                rets.append((st, conds, _subst(st.value, env)))
+                return None
+            else:
+                raise _Unsupported
+        return env
+
+    run(fi.node.body, {}, ())
+    return rets
+
+
+def _replace(e, target: ast.AST, repl: ast.AST):
+    if e is target:
+        return repl
+    if isinstance(e, ast.AST):
+        new = e.__class__()
+        for f, v in ast.iter_fields(e):
+            setattr(new, f, [_replace(x, target, repl) for x in v] if isinstance(v, list) else _replace(v, target, repl))
+        return new
+    return e
+
+
+def _alternatives(e: ast.AST, conds: tuple = (), budget: int = 64) -> list[tuple[tuple, ast.AST]]:
+    """Split conditional expressions: [(conditions, expression without IfExp)]."""
+    node = next((n for n in ast.walk(e) if isinstance(n, ast.IfExp)), None)
+    if node is None:
+        return [(conds, e)]
+    if budget <= 1:
+        raise AnalysisError("undecided: too many conditional alternatives in Bucket.generate_id")
+    known = {ast.dump(t): pol for t, pol in conds}
+    out = []
+    for pol, br in ((True, node.body), (False, node.orelse)):
+        if known.get(ast.dump(node.test), pol) != pol:
+            continue                                                      # same test already decided the other way on this path
+        out.extend(_alternatives(_replace(e, node, br), conds + ((node.test, pol),), budget // 2))
+    return out
+
+
+def _leads_with_prefix(s: ast.AST) -> bool:
+    """The string expression starts with the characters of self.prefix_id."""
+    if isinstance(s, ast.BinOp) and isinstance(s.op, ast.Add):
+        return _leads_with_prefix(s.left)
+    if isinstance(s, ast.IfExp):
+        return _leads_with_prefix(s.body) and _leads_with_prefix(s.orelse)
+    if isinstance(s, ast.JoinedStr) and s.values:
+        v = s.values[0]
+        return isinstance(v, ast.FormattedValue) and v.conversion == -1 and v.format_spec is None and _leads_with_prefix(v.value)
+    return chain(s) == "self.prefix_id"
+
+
+_WIDTH = "160 - len(self.prefix_id)"
+
+
+def _no_suffix_needed(conds: tuple) -> bool:
+    """The path conditions say that the prefix is already 160 bits long."""
+    for t, pol in conds:
+        for f in _atoms_with_polarity(t, pol):
+            l, r = norm(f.left), (norm(f.right) if f.right is not None else None)
+            if f.op == "truthy" and not f.pos and l == _WIDTH:
+                return True
+            if f.op == "eq" and f.pos and ({l, r} == {_WIDTH, "0"} or {l, r} == {"len(self.prefix_id)", "160"}):
+                return True
+            if f.op == "lt" and not f.pos and ((l, r) == ("0", _WIDTH) or (l, r) == ("len(self.prefix_id)", "160")):
+                return True
+    return False
+
+
 def rule_refresh_id(ctx: Ctx) -> None:
     repo = ctx.repo
     fi = repo.method("Bucket", "generate_id", RT)
     rets = [r for r in walk_no_nested(fi.node) if isinstance(r, ast.Return)]
     ctx.anchor(rets, "return in generate_id")
-
-    def expand(e: ast.AST, depth: int = 6) -> ast.AST:
-        """Inline single-assignment locals (copying the tree)."""
-        class T(ast.NodeTransformer):
-            def visit_Name(self, n):
-                if depth > 0 and isinstance(n.ctx, ast.Load):
-                    d = single_def(fi, n.id)
-                    if d is not None and d[1] is None:
-                        return expand(d[0], depth - 1)
-                return n
-        import copy
-        return T().visit(copy.deepcopy(e))
+    # the returned value as an expression over self.prefix_id: program-order substitution (handles `x = p; if w: x += s`),
+    # falling back to substitution of single-assignment locals when the body has loops / try / with
+    try:
+        values = _sym_returns(fi)
+        if {id(r) for r, _, _ in values} != {id(r) for r in rets}:
+            raise _Unsupported
+    except _Unsupported:
+        values = [(r, (), _expand(fi, r.value)) for r in rets]
 
     for r in rets:
-        full = expand(r.value)
-        # occurrences of self.prefix_id that are not under len(...)
-        data_uses = []
-        for n in ast.walk(full):
-            for ch in ast.iter_child_nodes(n):
-                ch._p = n  # type: ignore[attr-defined]
-        for n in ast.walk(full):
-            if isinstance(n, ast.Attribute) and chain(n) == "self.prefix_id":
-                p = getattr(n, "_p", None)
-                under_len = isinstance(p, ast.Call) and chain(p.func) == "len"
-                if not under_len:
-                    data_uses.append(n)
-        ok = bool(data_uses)
-        ctx.check(ok, "refresh-id-in-bucket", fi, r, "the bucket's prefix characters flow into the generated id",
-                  "generate_id depends on the prefix only through len(self.prefix_id): the refresh id does not lie inside the bucket (it starts with zero bits)")
-        if ok:
+        alts = [a for rr, conds, full in values if rr is r for a in _alternatives(full, conds)]
+        uses_ok = lead_ok = w_ok = hexok = bool(alts)
+        for conds, full in alts:
+            # occurrences of self.prefix_id that are not under len(...)
+            under_len = {id(a) for n in ast.walk(full) if isinstance(n, ast.Call) and chain(n.func) == "len" for a in n.args}
+            data_uses = [n for n in ast.walk(full) if isinstance(n, ast.Attribute) and chain(n) == "self.prefix_id" and id(n) not in under_len]
+            uses_ok = uses_ok and bool(data_uses)
             # prefix must be the leading part of the binary string handed to int(.., 2)
-            lead_ok = False
-            for n in ast.walk(full):
-                if isinstance(n, ast.Call) and chain(n.func) == "int" and len(n.args) == 2 and const_value(n.args[1]) == 2:
-                    s = n.args[0]
-                    while isinstance(s, ast.BinOp) and isinstance(s.op, ast.Add):
-                        s = s.left
-                    if chain(s) == "self.prefix_id":
-                        lead_ok = True
-            ctx.check(lead_ok, "refresh-id-in-bucket", fi, r, "prefix is the leading part of the binary id", "the prefix is not the leading bits of the generated id")
-            # random part is exactly 160 - len(prefix) bits
+            lead_ok = lead_ok and any(isinstance(n, ast.Call) and chain(n.func) == "int" and len(n.args) == 2 and const_value(n.args[1]) == 2
+                                      and _leads_with_prefix(n.args[0]) for n in ast.walk(full))
+            # random part is exactly 160 - len(prefix) bits; it may be missing only when that width is 0
             rnd = [n for n in ast.walk(full) if isinstance(n, ast.Call) and (chain(n.func) or "").startswith("random.")]
-            w_ok = False
+            w = False
             for c in rnd:
-                if call_name(c) == "getrandbits" and norm(c.args[0]).replace(" ", "") == "160-len(self.prefix_id)":
-                    w_ok = True
-                if call_name(c) == "randint" and norm(c.args[0]) == "0" and norm(c.args[1]).replace(" ", "") in ("2**(160-len(self.prefix_id))-1",):
-                    w_ok = True
-            ctx.check(w_ok, "refresh-id-in-bucket", fi, r, "random part is 160 - len(prefix) bits wide", "the random part of the refresh id does not have 160-len(prefix) bits")
-            hexok = any(isinstance(n, ast.Call) and chain(n.func) == "format" and const_value(n.args[1]) in ("040X", "040x") for n in ast.walk(full))
+                if call_name(c) == "getrandbits" and len(c.args) == 1 and norm(c.args[0]) == _WIDTH:
+                    w = True
+                if call_name(c) == "randint" and len(c.args) == 2 and norm(c.args[0]) == "0" and norm(c.args[1]).replace(" ", "") in ("2**(160-len(self.prefix_id))-1",):
+                    w = True
+            if not rnd and _no_suffix_needed(conds):
+                w = True
+            w_ok = w_ok and w
+            hexok = hexok and any(isinstance(n, ast.Call) and chain(n.func) == "format" and len(n.args) == 2 and const_value(n.args[1]) in ("040X", "040x")
+                                  for n in ast.walk(full))
+        ctx.check(uses_ok, "refresh-id-in-bucket", fi, r, "the bucket's prefix characters flow into the generated id",
+                  "generate_id depends on the prefix only through len(self.prefix_id): the refresh id does not lie inside the bucket (it starts with zero bits)")
+        if uses_ok:
+            ctx.check(lead_ok, "refresh-id-in-bucket", fi, r, "prefix is the leading part of the binary id", "the prefix is not the leading bits of the generated id")
+            ctx.check(w_ok, "refresh-id-in-bucket", fi, r, "random part is 160 - len(prefix) bits wide (absent only when that is 0)",
+                      "the random part of the refresh id does not have 160-len(prefix) bits")
             ctx.check(hexok, "refresh-id-in-bucket", fi, r, "id rendered as 20 bytes", "the generated id is not 20 bytes")
 
 
@@ -256,6 +566,14 @@ WITNESSES = [
     {"name": "refresh id random part too wide", "file": RT, "rule": "refresh-id-in-bucket",
      "old": "        suffix = format(random.getrandbits(suffix_length), f\"0{suffix_length}b\") if suffix_length else \"\"",
      "new": "        suffix = format(random.getrandbits(160), f\"0{suffix_length}b\") if suffix_length else \"\""},
+    {"name": "refresh id without random bits although the prefix is short", "file": RT, "rule": "refresh-id-in-bucket",
+     "old": "f\"0{suffix_length}b\") if suffix_length else \"\"", "new": "f\"0{suffix_length}b\") if suffix_length > 8 else \"\""},
+    {"name": "closest walk never reaches the root", "file": RT, "rule": "closest",
+     "old": "for i in reversed(range(len(prefix) + 1)):", "new": "for i in reversed(range(1, len(prefix) + 1)):"},
+    {"name": "closest adds unfiltered nodes as well", "file": RT, "rule": "closest",
+     "old": "            # Ensure nodes are sorted by distance\n", "new": "            nodes.update(self.get_bucket(node_id).nodes.values())\n"},
+    {"name": "remove_bad_nodes removes every node", "file": RT, "rule": "bucket-insert",
+     "old": "                    if node.status == NODE_STATUS_BAD:\n                        bucket.nodes.pop(node_id, None)", "new": "                    if node.status != NODE_STATUS_BAD:\n                        bucket.nodes.pop(node_id, None)"},
     {"name": "insert without ownership check", "file": RT, "rule": "bucket-insert",
      "old": "        if not self.owns(node.id):\n            return False\n\n        # Update existing node", "new": "        # Update existing node"},
     {"name": "insert into full bucket", "file": RT, "rule": "bucket-insert",
